@@ -21,7 +21,9 @@ LEVEL = 'model_checking'
 RULE = ('states = (implementation term list, reference value) reached by AddTerm histories from every leading form; '
         'every transition calls the real Equation.AddTerm and compares RHS()/str()/GetRightHandSide() with the exact '
         'reference at 3 prime valuations; non-trivial = histories in which a like-term merge, a cancellation or a '
-        'bracketed sign occurred. create_equation_from_terms: every list over the element alphabet up to the bound.')
+        'bracketed sign occurred. create_equation_from_terms: every list over the element alphabet up to the bound. '
+        'Sector-variable histories: AddTermToEquation interleaved with ReplaceTokensFromLookup (renaming) and SetEquationRightHandSide (replacement of the '
+        'leading expression), reference = sum of the renamed pieces since the last replacement.')
 ASSUMPTIONS = [
     'leading expressions are arithmetic (no comparisons/conditionals)',
     'three valuations with distinct primes stand for "every assignment" (value of a Laurent polynomial of degree <= 2 per variable)',
@@ -216,8 +218,55 @@ def nontrivial_history(hist):
     return len(set(bare)) < len(bare)
 
 
+# histories on a variable of a real Sector: term additions interleaved with a renaming of the names (what the model does
+# when it qualifies the equations) and with a replacement of the whole right-hand side (SetEquationRightHandSide)
+SV_OPS = ([['add', t] for t in ('x', '-x', 'y', 'x*y', 'w', '2*x')] + [['rename', {'x': 'w'}], ['rename', {'x': 'y', 'y': 'x'}]]
+          + [['reset', r] for r in ('y', 'x+y', '')])
+SV_VALS = [dict(v, w=Fraction(n)) for v, n in zip(VALS, (23, -29, 31))]
+import re as _re
+
+
+def _rename_text(txt, lookup):
+    return _re.sub(r'[A-Za-z_]\w*', lambda m: lookup.get(m.group(0), m.group(0)), txt)
+
+
+def check_sector_variable(hist):
+    from sfc_models.models import Model, Country
+    from sfc_models.sector import Sector
+    case = {'kind': 'sectorvar', 'history': [list(o) for o in hist]}
+    sec = Sector(Country(Model(), 'CO'), 'SEC', has_F=False)
+    sec.AddVariable('v', 'variable', 'x')
+    pieces = ['x']            # reference: texts whose values are summed
+    for step, op in enumerate(hist):
+        try:
+            if op[0] == 'add':
+                sec.AddTermToEquation('v', op[1])
+                pieces.append(op[1])
+            elif op[0] == 'rename':
+                sec.EquationBlock['v'].ReplaceTokensFromLookup(dict(op[1]))
+                pieces = [_rename_text(p_, op[1]) for p_ in pieces]
+            else:
+                sec.SetEquationRightHandSide('v', op[1])
+                pieces = [op[1]]
+        except Exception as ex:
+            return core.violation('sector-variable-call-raises:%s:%s' % (op[0], type(ex).__name__), 'step %d %r raised %r' % (step + 1, op, ex), case)
+        rhs = sec.EquationBlock['v'].RHS()
+        try:
+            got = tuple(exact.eval_at(rhs, v) if rhs.strip() else Fraction(0) for v in SV_VALS)
+        except Exception as ex:
+            return core.violation('invalid-expression', 'after step %d the right-hand side %r is not evaluable: %r' % (step + 1, rhs, ex), case)
+        want = tuple(sum((exact.eval_at(p_, v) for p_ in pieces if p_.strip()), Fraction(0)) for v in SV_VALS)
+        if got != want:
+            kinds = sorted(set(o[0] for o in hist[:step + 1]))
+            return core.violation('value-lost:sector-variable:' + '+'.join(kinds), 'after step %d (%r) the right-hand side %r = %s, expected the sum of %r = %s' % (
+                step + 1, op, rhs, [str(x) for x in got], pieces, [str(x) for x in want]), case)
+    return None
+
+
 def units(tier):
     out = []
+    for first in range(len(SV_OPS)):
+        out.append({'kind': 'sectorvar', 'first': first, 'depth': 4 if tier == 'quick' else 5})
     for lead in LEADS:
         for t in TERMS:
             out.append({'kind': 'addterm', 'lead': list(lead), 'first': t})
@@ -242,6 +291,30 @@ def run_unit(unit, tier):
         run_lists(unit, res, dig)
     elif unit['kind'] == 'termobj':
         run_termobj(unit, res, dig)
+    elif unit['kind'] == 'sectorvar':
+        for n in range(1, unit['depth'] + 1):
+            for rest in itertools.product(range(len(SV_OPS)), repeat=n - 1):
+                hist = [SV_OPS[unit['first']]] + [SV_OPS[i] for i in rest]
+                dig.add(('sectorvar', repr(hist)))
+                v = check_sector_variable(hist)
+                res['evaluations'] += 1
+                res['transitions'] += n
+                res['states'] += 1
+                res['traces'] += 1
+                if len(set(o[0] for o in hist)) > 1:
+                    res['nontrivial'] += 1
+                if v:
+                    res['violations'].append(v)
+                    core.bump(res['outcomes'], 'sectorvar-violation')
+                else:
+                    core.bump(res['outcomes'], 'sectorvar-ok-len%d' % n)
+        res['max_depth'] = max(res['max_depth'], unit['depth'])
+        res['samples'].append({'sector variable history': hist})
+        best = {}
+        for v in res['violations']:
+            if v['key'] not in best or len(v['case']['history']) < len(best[v['key']]['case']['history']):
+                best[v['key']] = v
+        res['violations'] = list(best.values())
     elif unit['kind'] == 'twins':
         for form in ('rhs', 'lhs_eq', 'blob'):
             for n in range(1, unit['depth'] + 1):
@@ -372,6 +445,9 @@ def replay(case):
         return [v] if v else []
     if case['kind'] == 'termobj':
         v = check_termobj(case['history'])
+        return [v] if v else []
+    if case['kind'] == 'sectorvar':
+        v = check_sector_variable([list(o) for o in case['history']])
         return [v] if v else []
     if case['kind'] == 'list':
         v = check_list(list(case['terms']))
